@@ -32,7 +32,8 @@ CONF = dict(
                 'verified request is authenticated for and accepted by the requesting client, reply addressing, forwarded iff received on the end-host port for another port that is '
                 'not the end-host port. The model is tied to StartSCIONServer / StartSCIONDispatcher / MeasureClockOffsetSCION on every run; the oracle is evaluated on the implementation\'s observations'),
     level_note=('Trusted: Coq kernel, the hand-written model (validated by the correspondence run), extraction, harness, scionproto/gopacket/kernel as inputs. Cryptographic strength is symbolic. '
-                'The oracle-holds-on-the-model statement is proved per clause (Prop-level theorems), not as one boolean theorem. No axioms (Closed under the global context).'),
+                'The oracle holds on the model as one boolean theorem for each side: C13_srv_oracle_holds_on_model (every listener configuration, datagram, ancillary data, MAC / Path.Reverse / key fetch / NTP function, '
+                'socket set; hypotheses: 16-byte tags, extension order of the parser, key available on an authenticating listener) and C13_cli_oracle_holds_on_model. No axioms (Closed under the global context).'),
     explanation=('oracle clauses: (1) authenticator with client SPI/algorithm on an authenticating listener whose recomputed MAC differs => nothing is sent; (2) verified request => every reply carries the '
                  'server-direction authenticator whose MAC equals the recomputed MAC of the reply, extension directly in front of UDP; (3) at most one datagram results, and it is either a reply at the '
                  'sending socket with ISD-AS/host/ports exchanged, the recomputed reversed path, SCMP payload echoed, or a forward at the socket of (destination host, L4 port) with addressing, path and '
